@@ -366,6 +366,10 @@ Varable failures: {var_failed}
                     )
 
         if props and dimensions:
+            if variables:
+                # auxiliary variables (e.g., CF coordinates) were registered
+                # while they were copied; only IOAPI variables are listed
+                out.getVarlist(update=True)
             out.updatetflag()
 
         return out
